@@ -251,6 +251,9 @@ def gen(t, tier):
         sc['linepreempt'] = t.pick([None, 40, 300, 2000]) if sc['threads'] else None
         # the wall clock jumps forward (NTP step, resumed virtual machine) while the writers are at work: waiting writers may
         # give up with a lock time-out, nobody may get into a bundle that another writer is still inside
+        # every second writer process reaches the cache directory under another spelling (through a symbolic link, as a seeding
+        # tool started with another configuration would): the same bundles must still be protected by the same locks
+        sc['alias'] = not sc['threads'] and bool(t.chance(0.3))
         sc['clock_jump'] = {'at': t.choice(400), 'by': t.pick([100.0, 600.0, 4000.0])} if t.chance(0.2) else None
     return sc
 
@@ -551,6 +554,8 @@ def _run_conc(sc, tape, b, name, probes):
                 if not shared_cache:
                     shared_cache.append(C.make_cache(b, _CDIR[0]))
                 cache = shared_cache[0]
+            elif sc.get('alias') and pi % 2 == 1:
+                cache = C.make_cache(b, '/simfs/alias/' + os.path.basename(_CDIR[0]))
             else:
                 cache = C.make_cache(b, _CDIR[0])
             for i, op in enumerate(ops):
@@ -642,6 +647,11 @@ def _run_conc(sc, tape, b, name, probes):
     with w:
         w.fs.buffer_size = sc['bufsize']
         server = w.new_proc('server') if sc.get('threads') else None
+        if sc.get('alias'):
+            if not os.path.isdir(os.path.dirname(_CDIR[0])):
+                os.makedirs(os.path.dirname(_CDIR[0]))
+            os.symlink(os.path.dirname(_CDIR[0]), '/simfs/alias')
+            probes['writers_under_two_path_spellings'] = 1
         if sc.get('linepreempt'):
             sched.enable_line_preemption(['mapproxy/cache/compact.py'], sc['linepreempt'])
         if sc.get('clock_jump'):
